@@ -149,6 +149,8 @@ Proof.
   - (* MWlWrite *)
     destruct V as [CW NE]. destruct K as [k1 k2]. cbn [apply]. destruct (cc_outQ c) as [|o q] eqn:Q; [congruence|].
     rewrite acks_cons in k1, k2. constructor; cc_cbn; rewrite acks_cons; [flia|]. intros X Y. specialize (k2 X Y). flia.
+  - (* MWlReset *)
+    cbn [apply]. destruct K as [k1 k2]. constructor; cc_cbn; rewrite acks_cons; cbn [is_ack Nat.add]; auto.
   - (* MOutQDrop *)
     cbn [valid] in V. destruct K as [k1 k2]. constructor; cbn [apply]; cc_cbn.
     + destruct (cc_outQ c) as [|o q]; cbn [tl]; [exact k1|]. rewrite acks_cons in k1. flia.
@@ -333,6 +335,8 @@ Proof.
   destruct m; cbn [items]; try constructor.
   - destruct (quietb o) eqn:Q; constructor; [exact Q | constructor].
   - destruct V as [X _]. congruence.
+  - (* MWlReset *) cbn [valid] in V. congruence.
+  - constructor.
   - destruct V as (pb & G & _ & WR). rewrite G. destruct wr; [|constructor]. destruct (WR eq_refl) as [X _]. congruence.
   - destruct V as (X & _). congruence.
   - constructor.
@@ -416,6 +420,7 @@ Proof.
   - destruct (quietb o) eqn:Q; [|destruct HI]. destruct HI as [->|[]]. discriminate.
   - destruct (cc_outQ c) as [|o q] eqn:Q; [destruct HI|]. destruct HI as [->|[]].
     pose proof (es_q _ _ E) as QQ. rewrite Q in QQ. inversion QQ as [|? ? QO QT]. destruct QO.
+  - (* MWlReset *) destruct HI as [X|[]]. discriminate.
   - destruct (cl_pend_get _ _) as [pb|]; [|destruct HI]. destruct wr; [|destruct HI].
     destruct (write_data_shape (cc_maxFrame c) id (cs_chunk c pb) (cs_end c pb)) as (l & A & _). rewrite A in HI.
     apply in_frames_of in HI. destruct HI as (x & _ & X). discriminate.
@@ -523,6 +528,7 @@ Proof.
     + destruct (quietb o) eqn:Q; [|destruct HI]. destruct HI as [->|[]]. discriminate.
     + destruct (cc_outQ c) as [|o q] eqn:Q; [destruct HI|]. destruct HI as [->|[]].
       pose proof (es_q _ _ E) as QQ. rewrite Q in QQ. inversion QQ as [|? ? QO QT]. destruct QO.
+    + (* MWlReset *) destruct HI as [X|[]]. discriminate.
     + destruct (cl_pend_get _ _) as [pb|]; [|destruct HI]. destruct wr; [|destruct HI].
       destruct (write_data_shape (cc_maxFrame c) id (cs_chunk c pb) (cs_end c pb)) as (l & X & _). rewrite X in HI.
       apply in_frames_of in HI. destruct HI as (x & _ & Y). discriminate.
